@@ -246,12 +246,13 @@ pub mod v5 {
     }
 
     pub fn packet(p: &Pk) -> Packet {
+        // q = 1 on an acknowledgement: a failure reason code
         match p.t.as_str() {
             "publish" => Packet::Publish(publish(p)),
-            "puback" => Packet::PubAck(PubAck::new(p.id, None)),
-            "pubrec" => Packet::PubRec(PubRec::new(p.id, None)),
-            "pubrel" => Packet::PubRel(PubRel::new(p.id, None)),
-            "pubcomp" => Packet::PubComp(PubComp::new(p.id, None)),
+            "puback" => { let mut a = PubAck::new(p.id, None); if p.q == 1 { a.reason = PubAckReason::QuotaExceeded; } Packet::PubAck(a) }
+            "pubrec" => { let mut a = PubRec::new(p.id, None); if p.q == 1 { a.reason = PubRecReason::QuotaExceeded; } Packet::PubRec(a) }
+            "pubrel" => { let mut a = PubRel::new(p.id, None); if p.q == 1 { a.reason = PubRelReason::PacketIdentifierNotFound; } Packet::PubRel(a) }
+            "pubcomp" => { let mut a = PubComp::new(p.id, None); if p.q == 1 { a.reason = PubCompReason::PacketIdentifierNotFound; } Packet::PubComp(a) }
             "suback" => Packet::SubAck(SubAck { pkid: p.id, return_codes: vec![SubscribeReasonCode::Success(QoS::AtMostOnce)], properties: None }),
             "unsuback" => Packet::UnsubAck(UnsubAck { pkid: p.id, reasons: vec![UnsubAckReason::Success], properties: None }),
             "pingresp" => Packet::PingResp(PingResp),
